@@ -17,7 +17,7 @@ from .errors import AnalysisError
 
 def _subst(e: ast.AST, mapping: dict) -> ast.AST:
     """Replace names by other names (str) or by expressions (ast) - used for bound variables and local aliases."""
-    import copy
+    from .errors import clone
 
     class R(ast.NodeTransformer):
         def visit_Name(self, n):  # noqa: N802
@@ -26,8 +26,8 @@ def _subst(e: ast.AST, mapping: dict) -> ast.AST:
                 return n
             if isinstance(m, str):
                 return ast.copy_location(ast.Name(id=m, ctx=n.ctx), n)
-            return copy.deepcopy(m)
-    return R().visit(copy.deepcopy(e))
+            return clone(m)
+    return R().visit(clone(e))
 
 
 def _rename(e: ast.AST, mapping: dict) -> str:
